@@ -1,7 +1,7 @@
 (* C16 — name, path, signature and UTF-8 checks accept exactly the specified
    grammars.  Only theorem statements closed by [exact]; proofs live in
    Proofs/.  See DESIGN.md section 4 (C16). *)
-From DV Require Import Lib.Base Gen.Tables Wire.Names Wire.Utf8 Wire.Sig Spec.NamesSpec Spec.Utf8Spec Spec.SigSpec Proofs.NamesProofs Proofs.Utf8Proofs.
+From DV Require Import Spec.Codec Lib.Base Gen.Tables Wire.Names Wire.Utf8 Wire.Sig Spec.NamesSpec Spec.Utf8Spec Spec.SigSpec Proofs.NamesProofs Proofs.Utf8Proofs Proofs.SigRoundtrip Proofs.SigAutomaton.
 From Coq Require Import ZArith.
 Local Open Scope N_scope.
 
@@ -57,11 +57,35 @@ Theorem C16_utf8 : forall s, all_bytes s = true -> validate_utf8 s = Some (spec_
 Proof. exact utf8_correct. Qed.
 Print Assumptions C16_utf8.
 
-(* Signatures: full statement (model = grammar with the 32/32 nesting limits),
-   NOT met by the faithful model (F11): array nesting is counted only over
-   consecutive 'a' codes.  The automaton/grammar equivalence below that limit
-   is decided by exhaustive small-scope correspondence, not yet by a theorem. *)
+(* Signatures.  Full statement (model = grammar with the 32/32 nesting limits for
+   EVERY byte string), NOT met by the faithful model (F11): the C automaton counts
+   array nesting only over consecutive 'a' codes. *)
 Definition C16_signature_full_statement : Prop := forall s, validate_signature s = spec_signature s.
+
+(* What holds: the automaton model accepts exactly the strings of the grammar
+   (sequences of single complete types, length <= 255, struct nesting <= 32) --
+   whatever it accepts parses, and everything the specification accepts it accepts --
+   and the two verdicts are EQUAL on every string whose array nesting respects the
+   specification's limit.  F11 is the only way they can differ. *)
+Theorem C16_signature : forall s,
+  (forall ts, parse_sig s = Some ts -> Forall (fun t => array_nest t <= 32) ts) ->
+  validate_signature s = spec_signature s.
+Proof. exact signature_model_eq_spec. Qed.
+Print Assumptions C16_signature.
+
+Theorem C16_signature_accepts_only_grammar : forall s, validate_signature s = true ->
+  exists ts, parse_sig s = Some ts /\ forallb ty_okb ts = true.
+Proof. exact validate_signature_sound. Qed.
+Print Assumptions C16_signature_accepts_only_grammar.
+
+Theorem C16_signature_accepts_all_spec : forall s, spec_signature s = true -> validate_signature s = true.
+Proof. exact spec_signature_validate. Qed.
+Print Assumptions C16_signature_accepts_all_spec.
+
+(* printer and parser of the grammar are inverse on well-formed types *)
+Theorem C16_signature_print_parse : forall t, ty_okb t = true -> parse_sig (print_ty t) = Some [t].
+Proof. exact parse_sig_print. Qed.
+Print Assumptions C16_signature_print_parse.
 
 Definition f11_witness : bytes :=
   flat_map (fun _ => [97; 40]) (seq 0 32) ++ [97; 105] ++ repeat 41 32.   (* "a(" x32 "ai" ")" x32 : 33 nested arrays *)
